@@ -17,6 +17,8 @@ THEOREMS = [
 ]
 from ..comp import splitmapping as _SMP
 THEOREMS = THEOREMS + _SMP.THEOREMS_C07_SPLIT
+from ..comp import splitmappingtie as _SMT
+THEOREMS = THEOREMS + _SMT.THEOREMS_C07_TIE
 COMPONENTS = ['hypotheses of the assembly theorems (well-formedness of asset problems) evaluated on every captured real asset problem', 'assemble (all aspects, positional) on captured real asset problems',
               'coarsen (fine steps per coarse step, coarse step lengths) vs the restricted grid the real code builds for every asset on a coarser frequency']
 RULE = ('random portfolios incl. order books with out-of-horizon orders (row-less variables), transports/multi-commodity (several rows per variable), '
